@@ -54,7 +54,11 @@ class DiagX(SDEFunction):
         super().__init__(m=dimension, d=dimension)
 
     def __call__(self, t: float, x: np.array) -> np.array:
-        return np.diag(x)
+        x = np.asarray(x)
+        if x.ndim == 3:  # stacked (fine, coarse) column states of the coupled scheme
+            return np.stack([np.diag(np.ravel(xi)) for xi in x])
+        # the state is passed as a column vector: np.diag of a 2-d array would extract its diagonal instead of building one
+        return np.diag(np.ravel(x))
 
 
 class LiborSDEFunction(SDEFunction):
